@@ -60,11 +60,11 @@ func genCase(t *rapid.T, env *ev.Env) Case {
 		Weights: map[string]int{
 			prog.OpCreateBucket: 3, prog.OpDeleteBucket: 2, prog.OpSetVersioning: 2,
 			prog.OpPut: 14, prog.OpDelete: 5, prog.OpDeleteObjects: 2,
-			prog.OpCopy: 2, prog.OpAppend: 2, prog.OpPutTags: 2, prog.OpMpuSeq: 1, prog.OpTransition: 1,
+			prog.OpCopy: 2, prog.OpAppend: 6, prog.OpPutTags: 2, prog.OpMpuSeq: 1, prog.OpTransition: 1,
 			prog.OpHead: 5, prog.OpGet: 8, prog.OpList: 5, prog.OpFlush: 3,
 		},
 		Classes:    []string{"STANDARD", "GLACIER"},
-		Conditions: true, Meta: true, Tags: true, Supplied: true, Versions: false,
+		Conditions: true, Meta: true, Tags: true, Supplied: true, Versions: false, HotKey: true,
 		MaxBody: 3000,
 		Prelude: []prog.Op{{Kind: prog.OpCreateBucket, B: 0}, {Kind: prog.OpCreateBucket, B: 1}},
 	}
